@@ -1,7 +1,8 @@
 // host: lib.rs
 // Native scenario for the C08 obligations: the log is replayed over a data file that already contains what it describes
 // (crash inside a checkpoint: pages and header written, log not yet emptied) - open succeeds, the contents are the
-// acknowledged ones, and a second open changes nothing.
+// acknowledged ones, and a second open changes nothing; and crash - recover - work - crash again before any checkpoint
+// keeps what the first recovery replayed.
 use crate::{DBConfig, Database};
 use std::path::{Path, PathBuf};
 
@@ -47,4 +48,52 @@ fn log_replayed_over_an_up_to_date_data_file() {
     assert_eq!(ids(&again), (1..8).collect::<Vec<i64>>(), "a second open changes the contents");
     drop(again);
     drop(db);
+}
+
+fn crash_image(db_path: &Path) -> (tempfile::TempDir, PathBuf) {
+    let dir = tempfile::TempDir::new().unwrap();
+    let image = dir.path().join(db_path.file_name().unwrap());
+    std::fs::copy(db_path, &image).unwrap();
+    std::fs::copy(wal_of(db_path), wal_of(&image)).unwrap();
+    (dir, image)
+}
+
+/// crash, recover, keep working, crash again before any checkpoint: the log the first recovery consumed must be gone,
+/// otherwise the second recovery meets the loser's records again - under transaction ids that now belong to new, committed
+/// transactions.
+fn crash_twice(roll_back: bool) {
+    let dir = tempfile::TempDir::new().unwrap();
+    let path = dir.path().join("t.db");
+    let db = Database::create(&path, DBConfig::default()).unwrap();
+    db.execute("CREATE TABLE t (id BIGINT, v INT)").unwrap();
+    db.execute("INSERT INTO t VALUES (1, 10)").unwrap();
+    db.flush().unwrap();
+    db.execute("INSERT INTO t VALUES (2, 20)").unwrap();
+    let mut s = db.session().unwrap();
+    s.execute("INSERT INTO t VALUES (3, 30)").unwrap();
+    s.execute("DELETE FROM t WHERE id = 1").unwrap();
+    if roll_back {
+        s.abort_transaction().unwrap();
+    }
+    db.execute("INSERT INTO t VALUES (4, 40)").unwrap();
+    let (_d1, first) = crash_image(&path);
+    let second_life = Database::open(&first, DBConfig::default()).expect("first recovery");
+    assert_eq!(ids(&second_life), vec![1, 2, 4], "after the first recovery");
+    second_life.execute("INSERT INTO t VALUES (5, 50)").unwrap();
+    second_life.execute("INSERT INTO t VALUES (6, 60)").unwrap();
+    let (_d2, second) = crash_image(&first);
+    let third_life = Database::open(&second, DBConfig::default()).expect("second recovery");
+    let got = ids(&third_life);
+    assert_eq!(got, vec![1, 2, 4, 5, 6], "after the second recovery (roll_back = {roll_back})");
+    std::mem::forget(s);
+}
+
+#[test]
+fn crash_twice_with_an_open_transaction() {
+    crash_twice(false);
+}
+
+#[test]
+fn crash_twice_with_a_rolled_back_transaction() {
+    crash_twice(true);
 }
